@@ -365,6 +365,14 @@ Section SharedStep.
       destruct (live_sig g st); [|out_crush].
       destruct (is_shared (sig_key g) st && negb (is_released (sig_key g) st)); [|out_crush].
       cbn [out_p]. apply PS_aset; [reflexivity|exact HP].
+    - (* OCShare *)
+      destruct (get_connptr (WC c) st); [|out_crush].
+      destruct (negb (is_shared (conn_key c) st) && (c <? 1000)); [|out_crush].
+      cbn [out_p]. apply PS_aset; [reflexivity|exact HP].
+    - (* OCRelease *)
+      destruct (get_connptr (WC c) st); [|out_crush].
+      destruct (is_shared (conn_key c) st && negb (is_released (conn_key c) st)); [|out_crush].
+      cbn [out_p]. apply PS_aset; [reflexivity|exact HP].
   Qed.
 
   Lemma sh_gc : forall fuel s s' l, gc prog fuel s = Ok s' -> shared s = l -> shared s' = l.
@@ -453,12 +461,23 @@ Qed.
 (* the same for signal objects co-owned by functor copies *)
 Lemma shared_signal_lifetime_history : S_shared_signal_lifetime_history.
 Proof.
-  intros p fuel st o st1 st2 g Hr Ha Hg.
+  intros p fuel st o st1 st2 g Hr Ha Hg Hlt.
   assert (W1 : WF st1) by (eapply after_op_wf; [exact (reachable_wf p fuel st Hr)|exact Ha]).
   assert (P1 : PS st1) by (eapply after_op_p; [exact (shared_keys_distinct p fuel st Hr)|exact Ha]).
   split.
-  - intros Hl Hl'. exact (proj1 (proj1 (shared_signal_lifetime p st1 st2 g W1 P1 Hg) Hl Hl')).
-  - exact (shared_signal_kept_while_owned p st1 st2 g Hg).
+  - intros Hl Hl'. exact (proj1 (proj1 (shared_signal_lifetime p st1 st2 g W1 P1 Hg Hlt) Hl Hl')).
+  - exact (shared_signal_kept_while_owned p st1 st2 g Hg Hlt).
+Qed.
+
+(* and for connection objects co-owned by functor copies *)
+Lemma shared_connection_lifetime_history : S_shared_connection_lifetime_history.
+Proof.
+  intros p fuel st o st1 st2 c Hr Ha Hg.
+  assert (W1 : WF st1) by (eapply after_op_wf; [exact (reachable_wf p fuel st Hr)|exact Ha]).
+  assert (P1 : PS st1) by (eapply after_op_p; [exact (shared_keys_distinct p fuel st Hr)|exact Ha]).
+  split.
+  - intros Hl Hl'. exact (proj1 (proj1 (shared_connection_lifetime p st1 st2 c W1 P1 Hg) Hl Hl')).
+  - exact (shared_connection_kept_while_owned p st1 st2 c Hg).
 Qed.
 
 (* after the collection at the end of an operation no orphan is left; this is true of the initial
@@ -516,11 +535,53 @@ Qed.
 
 Lemma no_orphan_signal_at_rest : S_no_orphan_signal_at_rest.
 Proof.
-  intros p fuel st g [ops E] Hl Hr.
+  intros p fuel st g [ops E] Hg Hl Hr.
   assert (Hfo : no_orphan p st) by (apply (run_top_no_orphan p fuel ops st0 st); [reflexivity|exact E]).
   unfold no_orphan in Hfo. unfold is_released in Hr.
   destruct (aget (sig_key g) (shared st)) as [[|]|] eqn:Ha; try discriminate Hr.
-  pose proof (find_orphan_none p _ _ Hfo _ (aget_in _ _ _ Ha) (proj2 (key_live_sig g st) Hl)) as X. lia.
+  pose proof (find_orphan_none p _ _ Hfo _ (aget_in _ _ _ Ha) (proj2 (key_live_sig g st Hg) Hl)) as X. lia.
+Qed.
+
+Lemma no_orphan_connection_at_rest : S_no_orphan_connection_at_rest.
+Proof.
+  intros p fuel st c [ops E] Hl Hr.
+  assert (Hfo : no_orphan p st) by (apply (run_top_no_orphan p fuel ops st0 st); [reflexivity|exact E]).
+  unfold no_orphan in Hfo. unfold is_released in Hr.
+  destruct (aget (conn_key c) (shared st)) as [[|]|] eqn:Ha; try discriminate Hr.
+  pose proof (find_orphan_none p _ _ Hfo _ (aget_in _ _ _ Ha) (proj2 (key_live_conn c st) Hl)) as X. lia.
+Qed.
+
+(* S_shared_signal_lifetime_history and S_no_orphan_signal_at_rest without the bound g < 2000 are false in
+   the model with co-owned connection objects: the key sig_key 2000 = 4000 = conn_key 0 names the
+   connection object 0.  After OGNew 2000; OCEmpty 0; OCShare 0; OCRelease 0 the connection object has been
+   collected, its entry (4000, true) stays in the table, and the signal object 2000 is alive and unowned. *)
+Definition sgx_prog : program := mkProg [] [] [] [].
+Definition sgx_ops : list op := [OGNew 2000 (mkGK RV None false); OCEmpty 0; OCShare 0].
+Definition sgx_st : state := match run_top sgx_prog 0 sgx_ops st0 with Ok s => s | Err _ => st0 end.
+Definition sgx_st1 : state :=
+  match step sgx_prog (run_callee_fuel sgx_prog 0) (OCRelease 0) sgx_st with Done s _ => s | _ => st0 end.
+Definition sgx_st2 : state := match gc_shared sgx_prog sgx_st1 with Ok s => s | Err _ => st0 end.
+
+Lemma shared_signal_any_key_false :
+  ~ (forall p fuel st g, reachable p fuel st ->
+       live_sig g st <> None -> is_released (sig_key g) st = true -> 0 < owner_count p (sig_key g) st) /\
+  ~ (forall p fuel st o st1 st2 g, reachable p fuel st -> after_op p fuel o st st1 ->
+       gc_shared p st1 = Ok st2 ->
+       (live_sig g st1 <> None -> live_sig g st2 = None -> is_released (sig_key g) st1 = true) /\
+       (live_sig g st2 <> None -> is_released (sig_key g) st2 = true -> 0 < owner_count p (sig_key g) st2)).
+Proof.
+  assert (R : reachable sgx_prog 0 sgx_st) by (exists sgx_ops; vm_compute; reflexivity).
+  assert (A : after_op sgx_prog 0 (OCRelease 0) sgx_st sgx_st1) by (left; vm_compute; reflexivity).
+  assert (G : gc_shared sgx_prog sgx_st1 = Ok sgx_st2) by (vm_compute; reflexivity).
+  split; intro H.
+  - assert (R2 : reachable sgx_prog 0 sgx_st2) by (exists (sgx_ops ++ [OCRelease 0]); vm_compute; reflexivity).
+    assert (X : 0 < owner_count sgx_prog (sig_key 2000) sgx_st2).
+    { apply (H sgx_prog 0%nat sgx_st2 2000 R2); [vm_compute; discriminate|vm_compute; reflexivity]. }
+    vm_compute in X. discriminate.
+  - destruct (H _ _ _ _ _ _ 2000 R A G) as (_ & B).
+    assert (X : 0 < owner_count sgx_prog (sig_key 2000) sgx_st2).
+    { apply B; [vm_compute; discriminate|vm_compute; reflexivity]. }
+    vm_compute in X. discriminate.
 Qed.
 
 Print Assumptions shared_keys_distinct.
@@ -529,3 +590,6 @@ Print Assumptions no_orphan_at_rest.
 Print Assumptions no_orphan_at_rest_any_key_false.
 Print Assumptions shared_signal_lifetime_history.
 Print Assumptions no_orphan_signal_at_rest.
+Print Assumptions shared_signal_any_key_false.
+Print Assumptions shared_connection_lifetime_history.
+Print Assumptions no_orphan_connection_at_rest.
